@@ -122,8 +122,11 @@ def coqc_text(name, text, timeout=600):
     with open(path, 'w', encoding='utf-8') as f:
         f.write(text)
     try:
-        rc, out = sh(['timeout', str(timeout), 'coqc'] + COQ_ARGS + ['cases/' + name + '.v'], cwd=COQ, timeout=timeout + 30)
+        rc, out = sh(['bash', '-c', 'ulimit -s unlimited 2>/dev/null || ulimit -s 1000000; exec timeout %d coqc -noglob "$@"' % timeout, 'coqc'] + COQ_ARGS + ['cases/' + name + '.v'], cwd=COQ, timeout=timeout + 30)
     finally:
+        if os.environ.get('VERIF_KEEP'):
+            import shutil
+            shutil.copy(path, '/tmp/keep_' + name + '.v')
         for ext in ('.v', '.vo', '.vok', '.vos', '.glob'):
             try:
                 os.remove(os.path.join(d, name + ext))
@@ -187,11 +190,21 @@ def parse_nat_list(out):
     return [int(x) for x in re.findall(r'\d+', body)]
 
 
-def coq_cases(tag, imports, preamble, terms, shard=300, timeout=900):
+SHARD_TIMES = []
+
+
+def coq_cases(tag, imports, preamble, terms, shard=300, timeout=int(os.environ.get('VERIF_CASE_TIMEOUT', '400'))):
     """Evaluate boolean terms inside Coq (vm_compute); returns sorted list of indices whose term is false."""
     if not terms:
         return []
-    shards = [(k, terms[k:k + shard]) for k in range(0, len(terms), shard)]
+    shards = []
+    cur, size, start = [], 0, 0
+    for i, t in enumerate(terms):
+        if cur and (len(cur) >= shard or size + len(t) > 120000):
+            shards.append((start, cur)); cur, size, start = [], 0, i
+        cur.append(t); size += len(t)
+    if cur:
+        shards.append((start, cur))
 
     def run(job):
         k, ts = job
@@ -199,7 +212,9 @@ def coq_cases(tag, imports, preamble, terms, shard=300, timeout=900):
         text += 'Open Scope string_scope. Open Scope list_scope. Open Scope Z_scope.\n' + preamble + '\n'
         text += 'Definition cases : list bool := [\n' + ';\n'.join(ts) + '\n].\n'
         text += 'Eval vm_compute in (failing cases).\n'
+        t1 = time.time()
         rc, out = coqc_text('K_%s_%d_%d' % (tag, os.getpid(), k), text, timeout)
+        SHARD_TIMES.append((round(time.time() - t1, 1), tag, k))
         if rc != 0:
             raise CheckError('case file %s shard %d failed to compile: %s' % (tag, k, out[-1500:]))
         idx = parse_nat_list(out)
@@ -289,12 +304,19 @@ class Ctx:
     def correspond(self, name, imports, preamble, terms, describe):
         """terms: Coq bool terms `model(input) =? impl_output`; describe(i) -> replay dict of case i."""
         self.checker_cmds.append('correspondence %s: %d cases evaluated by coqc (vm_compute) against the implementation' % (name, len(terms)))
+        dirs = {'VModel': 'model', 'VGen': 'gen', 'VProofs': 'proofs', 'VProps': 'props'}
+        tg = ['%s/%s.vo' % (dirs[i.split(':')[0]], i.split(':')[1]) for i in imports]
+        res = coq_build(tg)
+        if not res['ok']:
+            for f in res['failures']:
+                self.broken.append({'kind': 'correspondence', 'name': name, 'detail': 'model does not build: %s line %d: %s' % (f['file'], f['line'], f['error'])})
+            return [-1]
         try:
             bad = coq_cases(self.prop + '_' + name, imports, preamble, terms)
         except CheckError as e:
             self.broken.append({'kind': 'correspondence', 'name': name, 'detail': str(e)[-1500:]})
             return [-1]
-        self.extra.setdefault('correspondence', {})[name] = {'cases': len(terms), 'mismatches': len(bad)}
+        self.extra.setdefault('correspondence', {})[name] = {'cases': len(terms), 'mismatches': len(bad), 'slowest_shards': sorted(SHARD_TIMES)[-3:]}
         for i in bad[:5]:
             self.broken.append({'kind': 'correspondence', 'name': name, 'detail': json.dumps(describe(i), default=repr)[:1500]})
         if len(bad) > 5:
